@@ -182,7 +182,7 @@ def prepare_err(tier, vf, gendir, hdir, harnesses, info):
             "remove_bodies": ["safe_memcpy", "janet_binop_call", "janet_mcall", "janet_getmethod", "janet_sandbox", "janet_sandbox_assert", "janet_init", "janet_deinit"],
             "cbmc": ["--no-built-in-assertions", "--paths", "lifo"],
             "no_body_deny_re": "^(janet_(fiber|continue|call|in|get|put|next|length|binop|mcall|tuple|array|struct|table)|run_vm)",
-            "backend": "cadical", "unwind": 24, "unwind_functions": {"run_vm": 400, "memcpy": 600, "memmove": 600, "janet_fiber_funcframe": 300, "janet_fiber_funcframe_tail": 300}, "timeout": 400, "mem_gb": 4,
+            "backend": "cadical", "unwind": 24, "unwind_functions": {"run_vm": 400, "memcpy": 700, "memmove": 700, "janet_fiber_funcframe": 700, "janet_fiber_funcframe_tail": 700}, "timeout": 400, "mem_gb": 4,
             "cases": [{"name": ERR_CONTEXTS[i][0], "D": ["-DVF_CTX=%d" % i], "tier": "quick" if (ERR_CONTEXTS[i][0] in ("top", "nontail") and name != "while_closure") or (ERR_CONTEXTS[i][0] == "while_body" and name == "two_sites") or (ERR_CONTEXTS[i][0] == "top" and name == "while_closure") else "thorough", "timeout": 500, "timeout_thorough": 1500} for i in range(len(ERR_CONTEXTS))],
             "functions_encoded": ["vm.c: run_vm (JOP_ERROR, vm_commit), janet_continue*", "fiber.c: frames", "compile.c (source mapping: mapbuffer, janetc_pop_funcdef), specials.c (while: loop-to-function rewrite), emit.c, bytecode.c (no-op removal rewrites the map) of the current tree run concretely to produce each function with its source map (fdump)"],
             "asserted": ["K5: for ALL number inputs a b c, the program raises exactly the error its evaluation rules prescribe (or none), and the source line and column recorded for the pc of the error instruction in the innermost function - what janet_stacktrace and debug/stack print - are those of the (error ...) form that raised it, in every embedding context (top level, non-tail, for-loop body, nested closure, body of a while loop that is rewritten into a function because it creates a closure)"],
@@ -223,7 +223,7 @@ def prepare(tier, vf):
             "remove_bodies": ["safe_memcpy", "janet_binop_call", "janet_mcall", "janet_getmethod", "janet_sandbox", "janet_sandbox_assert", "janet_init", "janet_deinit"],
             "cbmc": ["--no-built-in-assertions", "--paths", "lifo"],
             "no_body_deny_re": "^(janet_(fiber|continue|call|in|get|put|next|length|binop|mcall|tuple|array|struct|table)|run_vm)",
-            "backend": "cadical", "unwind": 24, "unwind_functions": {"run_vm": 400, "memcpy": 600, "memmove": 600, "janet_fiber_funcframe": 300, "janet_fiber_funcframe_tail": 300}, "timeout": 400, "mem_gb": 4,
+            "backend": "cadical", "unwind": 24, "unwind_functions": {"run_vm": 400, "memcpy": 700, "memmove": 700, "janet_fiber_funcframe": 700, "janet_fiber_funcframe_tail": 700}, "timeout": 400, "mem_gb": 4,
             "cases": [dict({"name": CONTEXTS[i][0], "D": ["-DVF_CTX=%d" % i],
                             "tier": "quick" if (CONTEXTS[i][0] in ("nontail", "loop") and name in QUICK) else "thorough", "timeout": 400, "timeout_thorough": 1500},
                            **({"unwind": 300} if CONTEXTS[i][0] == "manylocals" else {})) for i in range(1, len(CONTEXTS))],
